@@ -879,6 +879,25 @@ def make_invalid(rng, hdrs):
     return hdrs[:pos] + [bad] + hdrs[pos:] + [(rand_token(rng, 3, 8), rand_req_value(rng, b"x")) for _ in range(rng.randint(0, 3))], pos
 
 
+def refused_trailers(rng, hdrs, maxfield):
+    """a trailer block http_request_parse_header() gives up on half way (a pseudo-header, or a field that
+    takes the block over server.max-request-field-size), FOLLOWED by fields the peer may well add to its
+    table; returns (list, the fields behind the refusal point)"""
+    if maxfield <= 400 and rng.random() < 0.5:
+        bad = (rng.choice([b"x-pad", b"x-checksum"]),
+               bytes(rng.choice(b"abcxyz019") for _ in range(maxfield + rng.randint(0, 40))))
+    else:
+        bad = rng.choice([(b":bogus", b"1"), (b":path", b"/t"), (b":status", b"200"), (b":method", b"GET"),
+                          (b":authority", b"t.example"), (b":x", b"y")])
+    tail, seen = [], set()
+    for _ in range(rng.randint(1, 3)):
+        n = b"x-t-" + rand_token(rng, 2, 6)
+        if n not in seen:
+            seen.add(n)
+            tail.append((n, rand_req_value(rng, b"x")[:40]))
+    return hdrs + [bad] + tail, tail
+
+
 def split_frags(rng, blk):
     n = rng.choice([1, 1, 1, 2, 3, 4])
     if n == 1 or len(blk) < 2:
@@ -1029,6 +1048,8 @@ def gen_req(ctx):
             g.acked = True
         nid = 1
         fill = rng.random() < 0.4            # try to reach the concurrency limit
+        directed = rng.random() < 0.12       # refused trailer blocks whose later fields the next request re-uses
+        echo = []
         for _ in range(rng.choice([1, 2, 4, 8, 14, 24, 40, 70])):
             if g.goaway > 0:
                 break
@@ -1045,12 +1066,19 @@ def gen_req(ctx):
                 outs.append("x")
                 continue
             g0 = g.goaway
-            if r < 0.24 and g.kept:
+            if r < (0.45 if directed else 0.24) and g.kept:
                 # HEADERS on a stream the connection still tracks: trailers (or a protocol violation)
                 sid = rng.choice(sorted(g.kept))
-                es = rng.random() < 0.85
+                es = rng.random() < (0.97 if directed else 0.85)
                 hdrs = [(rng.choice([b"x-trailer", b"grpc-status", b"x-checksum"]), rand_req_value(rng, b"x"))
                         for _ in range(rng.randint(0, 3))]
+                if rng.random() < (0.8 if directed else 0.3):
+                    # the header parser refuses a field of the trailers: the rest of the block is decoded all the
+                    # same, also when the response of the stream has begun (its status is set already)
+                    hdrs, echo = refused_trailers(rng, hdrs, maxfield)
+                if rng.random() < 0.5:
+                    items.append("S%d/%d" % (sid, rng.choice([200, 200, 200, 206, 404, 500])))
+                    outs.append("s")
                 keep, exp, bad, refuse = 0, None, rng.random() < 0.03, None
             else:
                 es = rng.random() < 0.75
@@ -1062,7 +1090,14 @@ def gen_req(ctx):
                     # a body is announced and none of it sent: trailers on this stream are a stream error
                     hdrs.append((b"content-length", b"5"))
                     exp[3].append((b"content-length", b"5"))
-                if rng.random() < 0.10:
+                if echo and rng.random() < 0.8:
+                    # the fields that stood behind the refusal point of a trailer block, again: a peer that
+                    # indexed them refers to its table now
+                    for n, v in echo:
+                        hdrs.append((n, v))
+                        exp[3].append((n, v))
+                    echo = []
+                if rng.random() < (0.02 if directed else 0.10):
                     # a request the header parser refuses half way: the rest of the block is still decoded
                     hdrs, refuse = make_invalid(rng, hdrs)
                     exp = ("STATUS", "400")
@@ -1075,7 +1110,7 @@ def gen_req(ctx):
                         break
                 if refuse is not None and rng.random() < 0.3:
                     bad = True                   # garbage after the refusal point is a decoding error all the same
-                keep = int((rng.random() < (0.9 if fill else 0.15)) and len(g.kept) < 8)
+                keep = int((rng.random() < (0.9 if fill else 0.6 if directed else 0.15)) and len(g.kept) < 8)
                 if declared:
                     keep = 2 if (keep and refuse is None) else 0
                 sid = nid
@@ -1110,7 +1145,12 @@ def gen_req(ctx):
             items.append("%s%d/%d/%s/%s/%s/%d" % (rng.choice("HHh"), sid, es, pad, dep,
                                                  "+".join(C.hx(f) for f in split_frags(rng, blk)), keep))
         line = "req %d %s" % (maxfield, " ".join(items))
-        REQ_EXPECT[line] = (expect, outs)
+        # the decoder's table at the end = the table of the peer's encoder after the blocks lighttpd consumed
+        # (as long as the connection is alive)
+        ftbl = None
+        if g.goaway <= 0:
+            ftbl = ",".join("%s:%s" % (C.hx(n), C.hx(v)) for n, v in enc.tbl.dyn) if enc.tbl.dyn else "-"
+        REQ_EXPECT[line] = (expect, outs, ftbl)
         L.append(line)
     return L
 
@@ -1136,7 +1176,7 @@ def oracle_req(line, out, views=True):
     ent = REQ_EXPECT.get(line)
     if ent is None:
         return None
-    exp, outs = ent
+    exp, outs, ftbl = ent
     o = out.split(" ")
     if "IDBAD" in out:
         return "h2_parse_headers_frame: a request header is filed under an id that is not the id of its name"
@@ -1145,8 +1185,19 @@ def oracle_req(line, out, views=True):
         k = next((i for i in range(min(len(got), len(outs))) if got[i] != outs[i]), min(len(got), len(outs)))
         return "h2_recv_headers: header block not handled as it must be for the HPACK state (%s instead of %s)" % (
             tok_kind(got[k]) if k < len(got) else "nothing", tok_kind(outs[k]) if k < len(outs) else "nothing")
-    if not views:
+    def table_verdict():
+        if ftbl is not None:
+            tb = [x for x in o[len(outs):] if x.startswith("T")]
+            if len(tb) != 1 or ":" not in tb[0]:
+                return "harness: decoder table missing"
+            got_t = tb[0].split(":", 1)[1]
+            got_t = "-" if got_t == "-" else ",".join(":".join(f.split(":")[:2]) for f in got_t.split(","))
+            if got_t != ftbl:
+                return "h2 request direction: the connection's HPACK dynamic table differs from the table of the " \
+                       "peer's encoder after the header blocks received (connection alive, no error signalled)"
         return None
+    if not views:
+        return table_verdict()
     for i, e in exp.items():
         if i >= len(o) or not o[i].startswith("new:"):
             continue
@@ -1163,7 +1214,7 @@ def oracle_req(line, out, views=True):
             return "h2 request: the request does not hold the method/path/authority/field list that was encoded"
         if v[0] not in ("0", "200"):
             return "h2 request: well-formed request answered with status %s at header parsing" % v[0]
-    return None
+    return table_verdict()
 
 
 def rand_case(rng, name):
